@@ -159,7 +159,7 @@ def run_history(history, root, plan=None, intercept=True):
                 json.dump({"log": fs.log, "crashed": fs.crashed}, f)
 
     if history == "up-migrate":
-        r = proc.run_cli(["up"] + _dirarg() + ["--migrate", "--summary"], cwd=root, pre=pre, post=post)
+        r = proc.run_cli(["up"] + _dirarg() + ["--migrate", "--format", "json"], cwd=root, pre=pre, post=post)
     elif history == "init":
         r = proc.run_cli(["init"], cwd=root, pre=pre, post=post)
     else:
@@ -178,12 +178,19 @@ def run_history(history, root, plan=None, intercept=True):
 def classify(root):
     """`tally up --format json` in a fresh process; returns a comparable classification or a failure marker."""
     r = proc.run_cli(["up"] + _dirarg() + ["--format", "json"], cwd=root)
+    return classification_of(r)
+
+
+def classification_of(r):
     if r["exit"] != 0:
         return ("FAILED", r["exit"])
     try:
-        data = json.loads(r["stdout"][r["stdout"].index("{"):])
+        data = json.loads(r["stdout"][r["stdout"].index("\n{"):])
     except Exception:
-        return ("UNPARSEABLE", r["stdout"][-100:])
+        try:
+            data = json.loads(r["stdout"][r["stdout"].index("{"):])
+        except Exception:
+            return ("UNPARSEABLE", r["stdout"][-100:])
     return tuple(sorted((m["name"], m["category"], m["subcategory"], tuple(sorted(m.get("tags", [])))) for m in data.get("merchants", [])))
 
 
@@ -335,6 +342,13 @@ def _check_case(case, b):
     if unowned:
         shutil.rmtree(root1, ignore_errors=True)
         raise H.HarnessError(f"file-system change not explained by any intercepted effect: {unowned} (history {history}, {b['name']})")
+    # the report printed by the migrating run itself classifies with the user's rules too
+    if history == "up-migrate" and not _failed(before_class):
+        own = classification_of(r1)
+        if own not in (before_class, expected_classification()) and not _failed(own):
+            viol.append({"kind": "migrating-run-classifies-differently", "detail": {"plan": "no fault (run to completion)", "history": history, "budget": b["name"],
+                                                                                    "before": before_class, "report_of_the_migrating_run": own},
+                         "case": {"budget": case["budget"], "plan": {}}})
     # the completed run itself
     v0, _, _ = judge(history, files, before_class, root1)
     for kind, d in v0:
